@@ -80,3 +80,11 @@ PROPS['C13']['bounded'] = list(PROPS['C13']['bounded']) + ['listpair']
 PROPS['C13']['trusted'] = PROPS['C13']['trusted'] + ['N11: impl_command_list_tuple! expanded by tools/macroexp.py from the macro_rules! definition in the same file',
     '<Vec<C> as CommandList> (iterator adaptors map/zip/extend with trait-method paths) is NOT under contract: bounded stand-in listpair',
     "vstd's specification of vec::IntoIter::next (prophetic remaining sequence)"]
+
+TRUSTED_FILT = "oracle: spec port of MPD's SongFilter::ParseExpression / ExpectWord / ExpectQuoted (contracts/spec/filt.rs) and its Rust twin (replay/src/mpdfilter.rs), transcribed from the MPD sources from memory"
+PROPS['C11'] = {'units': ['C'], 'spec_tags': ['tok', 'filt'], 'bounded': ['filtersearch'],
+                'trusted': [TRUSTED_TOK, TRUSTED_FILT, TRUSTED_BYTES, TRUSTED_STD,
+                            'N9: write!(buf, "..{}..", ..) with plain {} placeholders of str-like arguments expanded to appends of the pieces (BytesMut as fmt::Write appends the UTF-8 bytes; fails only beyond usize::MAX bytes)',
+                            'assumed contracts of std through N10 wrappers: str::contains(char), str::replace(char, &str) (every occurrence replaced, left to right), Cow/AsRef<str> views',
+                            'tags inside a filter are valid field names (Tag::Other built by hand may not be: documented precondition of the crate)',
+                            'termination of the recursive FilterType::render is not checked (exec_allows_no_decreases_clause): it recurses on strict sub-terms']}
